@@ -39,7 +39,7 @@ CLAIMED = {
     design="4.19"),
  "C07": dict(
     text="Provider.tla is the provider's decision table: outcome as a function of accessor (13 rate accessors), species kind, stored/missing data, wavelength "
-         "availability, the three flags, argument class (every grid point, inside, non-positive per axis, below/above per axis) and axis shape; TLC enumerates all 10 304 rows, "
+         "availability, the three flags, argument class (every grid point, inside, non-positive per axis, below/above per axis) and the set of single-point axes of the stored table; TLC enumerates all 12 424 rows, "
          "checks totality and uniformity invariants, and every row is executed on a real OpenADAS object over a repository populated through the C06-checked API "
          "(exception classes exact, grid values = stored table x CODATA unit conversion to 1e-9, exact zeros, finite non-negative, null rates).",
     note="3-point axes (the 2-D cubic interpolators reject single-point axes; single-point only for beam classes); interpolation quality between nodes not specified beyond finite/non-negative; "
@@ -51,9 +51,12 @@ CLAIMED = {
          "projection each is computed from, and the observer wiring (which notifiers a setter fires, which callbacks clear / rebuild what, cascades). TLC checks NoStale on the wiring "
          "(every dependent cache is reached) over all histories of mutators and observations to depth 2 (3 sampled in thorough) from a fresh and a fully observed scene; "
          "every explored edge is replayed on a real raysect scene with mock atomic data and each observation (6 sight lines, beam density/direction, plasma scalars, laser segments) "
-         "is compared with a scene built from scratch in the final configuration (same code both sides, rtol 1e-11). A sensitivity audit guarantees every parameter is observable.",
+         "is compared with a scene built from scratch in the final configuration (same code both sides, rtol 1e-11). A sensitivity audit guarantees every parameter is observable. "
+         "In the other direction, random long histories are recorded from the real scene together with the callbacks each call notified and TLC validates them against Scene.tla "
+         "through Trace_Scene.tla (required callbacks of the wiring table must have been notified). Mutators include the manager front-ends (set / clear+add / add) and re-pointing beam and laser at their plasma. "
+         "In thorough, 19 corruptions of the specification's own wiring table must be rejected by NoStale (spec-mutation audit).",
     note="Two concrete values per parameter; one object of each kind; constant mock rates; in-place edits of shared objects and user-defined models are out of scope; histories longer than the depth bound only sampled.",
-    technique="TLA+ wiring/caching state machine model-checked by TLC; explored histories replayed on the real scene vs fresh build",
+    technique="TLA+ wiring/caching state machine model-checked by TLC; explored histories replayed on the real scene vs fresh build; TLC trace validation of recorded histories with notified callbacks",
     design="4.1"),
  "C18": dict(
     text="LaserObjects.tla models the four laser profiles and two laser spectra as parameters + eagerly recomputed derived state (energy-density function, polarisation function, "
@@ -68,7 +71,7 @@ CLAIMED = {
     text="FuncWrap.tla states, for every wrapper class (iso-mappers, swizzles incl. all 27 Swizzle3D shapes, slices, axisymmetric and cylindrical mappers with rational radii and "
          "angles from Pythagorean points, input/output clamps, scalar and vector periodic transforms, polygon mask by exact crossing number on lattice polygons) the argument tuple the "
          "wrapped function must receive and the post-processing, plus sampler grids; TLC enumerates ~720 cases and checks range/congruence invariants; every case is executed with "
-         "recording callables and compared. IEEE edge tokens (tiny negative, -0.0, 1e300, exact multiples, on-axis / underflowing radii) are checked by predicate.",
+         "recording callables and compared; vector wrappers also after an earlier evaluation elsewhere with a wrapped function that keeps the vector it returns (purity). IEEE edge tokens (tiny negative, -0.0, 1e300, exact multiples, on-axis / underflowing radii) are checked by predicate.",
     note="Rational-lattice arguments only (periods are exact binary fractions); general IEEE-754 behaviour is covered only by the named tokens; polygon points on an edge accepted either way.",
     technique="TLA+ case table with exact integer arithmetic enumerated by TLC, one recording-callable test per case",
     design="4.13"),
@@ -97,7 +100,7 @@ CLAIMED = {
     technique="TLA+ exact shoelace orbit table enumerated by TLC, one voxel test per orbit element; seeded estimator check",
     design="4.17"),
  "C11": dict(
-    text="Sart.tla is the SART iteration as a state machine over exact rationals (update with relaxation, row/column sums, clipping, 1-D chain Laplacian penalty, convergence measure, "
+    text="Sart.tla is the SART iteration as a state machine over exact rationals (update with relaxation, row/column sums, clipping, penalty (L x)_l with a symmetric chain and a non-symmetric row-normalised regularisation matrix, convergence measure, "
          "stopping rule); TLC explores every instance over small integer matrices (all 2x2 over {0,1,2}, 2x3/3x2 over {0,1} incl. zero rows/columns), measurements, three initial guesses, "
          "two relaxations, with/without penalty, checks non-negativity, the fixed-point and unseen-voxel invariants, and every terminal state (iterate, convergence list, iteration count) is "
          "compared with invert_sart / invert_constrained_sart (1e-10). LeastSquares.tla computes the exact minimisers of the Tikhonov-regularised problem with two unknowns by Cramer's rule "
@@ -109,9 +112,10 @@ CLAIMED = {
     text="IonBalance.tla gives, for an element of atomic number Z with integer ionisation / recombination / thermal-CX rate patterns, donor ratio n_D/n_e in {0, 1/2, 2} and donor charge state, "
          "the exact rational steady-state populations and checks unit-simplex, neighbour balance and mean-charge invariants (Z <= 8 exact; Z up to 18 rates only). Every instance is run on a mock "
          "AtomicData through fractional_abundance (scalar, ndarray, Function1D, Function2D + free variables), from_elementdensity, match_plasma_neutrality (charge closure, non-negativity) and the "
-         "1-D interpolator front-ends; results are compared with the exact fractions / balance equations (1e-7) and with each other.",
+         "1-D interpolator front-ends; results are compared with the exact fractions / balance equations (1e-7) and with each other. IonSession.tla generates sequences of entry-point calls "
+         "(entry x element x representation x donor, depth 2-3) that share one set of caller-owned profile arrays with T_e/n_e-dependent rates: after every call the arrays must be untouched and the result equal to the same call on fresh scalar inputs.",
     note="Constant (n_e, T_e-independent) rates at physical magnitude (k x 1e-14 m^3/s, n_e = 3e19): with O(1) rates lsq_linear is hopelessly scaled (observed, not asserted); equilibrium-mapped wrappers not exercised.",
-    technique="TLA+ exact rational balance table enumerated by TLC, every entry point x representation compared per instance",
+    technique="TLA+ exact rational balance table enumerated by TLC, every entry point x representation compared per instance; TLA+ call-sequence model for purity / shared inputs",
     design="4.9"),
  "C10": dict(
     text="RayTransfer.tla is the midpoint marching loop as a state machine (one TLA+ step per sample) on integer lattices: Cartesian cells by exact floors, cylindrical cells by squared radii and "
@@ -127,7 +131,7 @@ CLAIMED = {
          "(neutral, bare, partially stripped; present / absent / zero / negative densities, zero temperatures, n_e and T_e incl. zero and negative): required species, eligible donors, which density multiplies "
          "which integer coefficient, zero conditions; TLC checks zero-when-non-positive and non-negativity over ~61 000 configurations and each is executed on a real Plasma with a mock provider carrying the "
          "spec's rate table: wavelength-integrated emission vs total/4pi (1e-9), uniform spread for radiated power, bin averages vs Hutchinson 5.3.40 with CODATA constants, RuntimeError for missing species, "
-         "and the provider accessor calls must be exactly those the rule prescribes.",
+         "and the provider accessor calls must be exactly those the rule prescribes. A 'prior' dimension re-binds an already evaluated model from another provider / another plasma first (the rules do not depend on it).",
     note="One point, constant distributions, Gaussian line shape in a window covering the line; negative donor/hydrogen densities (statement clauses disagree) observed only; real Gaunt tables not used.",
     technique="TLA+ selection/composition rule table enumerated by TLC, one model evaluation per configuration + accessor-call trace check",
     design="4.3"),
@@ -143,14 +147,16 @@ CLAIMED = {
     text="LineShape.tla gives, for each of the seven line-shape models, the components a line is split into with their exact share of the radiance (fractions in cos^2 of the field angle from integer "
          "vectors, multiplet / Zeeman-structure / MSE ratios) and their position label, over polarisation x 4 angle classes x field on/off x temperature sign x broadening x 5 window classes; TLC checks "
          "shares sum to one, the pi and sigma shares, pi + sigma = 1 and that a line without width has no components (2 280 configurations). Each is executed on the real object: Gaussian-kernel models "
-         "bin by bin against sum R w BinAvg_erf(position, sigma) with CODATA Doppler/Zeeman/Stark positions (1e-9), the Stark pseudo-Voigt by its integral, pi + sigma vs unpolarised bin by bin, no-width adds nothing.",
-    note="One plasma point and fixed tables; Stark fit coefficients are inputs; Lorentzian kernel shape only through the integral (2e-3).",
-    technique="TLA+ exact component-share table enumerated by TLC, one add_line evaluation per configuration against erf bin averages",
+         "bin by bin against sum R w BinAvg_erf(position, sigma) with CODATA Doppler/Zeeman/Stark positions (1e-9), the Stark pseudo-Voigt bin by bin against (1-eta) erf average + eta closed-form modified-Lorentzian average (2F1 primitive, documented width/weight fits; Doppler-dominated and mixed-width regimes), "
+         "pi + sigma vs unpolarised bin by bin, no-width adds nothing. Quadrature.tla models the GaussianQuadrature integrator the Stark model spreads its Lorentzian part with (order range, roots table, "
+         "refused values): every edge to depth 2-3 replayed on a real integrator vs a freshly constructed one (bit for bit), polynomials up to degree 2 min_order - 1 exact, Lorentzian bins equal.",
+    note="One plasma point and fixed tables; Stark fit coefficients are inputs; bins tens of nm wide are compared to 2e-3 (the adaptive quadrature's own accuracy), resolved windows to 1e-4.",
+    technique="TLA+ exact component-share table enumerated by TLC, one add_line evaluation per configuration against closed-form bin averages; TLA+ integrator state machine replayed vs fresh object",
     design="4.2"),
  "C04": dict(
     text="BeamDensity.tla gives, for species mixes (1-3 ion species, stopping rates a_i + c_i n_eq so the composite coefficient depends on the equivalent density of all species), beam shapes "
          "(sigma, divergences as rational tangents, length, clamping) and a lattice of points, the domain class (before source / beyond length / outside clamp / inside) and the exact integers S, "
-         "sigma_x^2(z), sigma_y^2(z), the direction as fractions; TLC checks monotonic attenuation, flux conservation without stopping and the streamline identity. Each of the 1 536 rows is evaluated "
+         "sigma_x^2(z), sigma_y^2(z), the direction as fractions; TLC checks monotonic attenuation, flux conservation without stopping and the streamline identity. The attenuation table's lattice (node count and spacing for steps that do and do not divide the beam length) is part of the table. Each of the 4 608 rows is evaluated "
          "on a real Beam + SingleRayAttenuator in a uniform plasma (value to 1e-9 with CODATA constants; exact zeros; unit direction parallel to the spec's), the mock rates' evaluation arguments are "
          "compared with (E_int, sum Z^2 n / Z_i, T_i), plus a fine on-axis lattice for monotone decay and flux conservation.",
     note="Uniform plasma along the beam (attenuation integral exact); non-uniform profiles only through the C01 scenes; points between attenuation nodes compared within the linear-interpolation bound.",
